@@ -90,6 +90,9 @@ struct Case {
     /// 0: one complete empty message; 1: the same, but the peer has not closed its request stream
     /// (and never will); 2: a 3 MiB request message
     req_body: u8,
+    /// HTTP method and content-type of the request: routing is by path alone
+    method: &'static str,
+    content_type: &'static str,
 }
 
 /// `RefRouter`: which (service, method) must run for this path.
@@ -167,10 +170,10 @@ fn body(c: &Case, ch: &Chooser) -> Outcome {
     let mut routes = routes.prepare();
     let uri: http::Uri = c.path.parse().unwrap();
     let req = http::Request::builder()
-        .method("POST")
+        .method(c.method)
         .uri(uri)
         .version(http::Version::HTTP_2)
-        .header("content-type", "application/grpc")
+        .header("content-type", c.content_type)
         .header("te", "trailers")
         .body(match c.req_body {
             0 => ScriptBody::new(wire::encode_frame(0, &[]), None, Chunking::Fixed(vec![]), ch),
@@ -398,15 +401,20 @@ pub fn property(tier: Tier) -> Property {
                 if tier == Tier::Quick && order.len() > 2 && (pi + ri) % 4 != 0 {
                     continue;
                 }
-                cases.push(Case { order: order.clone(), wrap: *wrap, builder: (ri + pi) % 2 == 0, path: p.clone(), req_body: 0 });
+                cases.push(Case { order: order.clone(), wrap: *wrap, builder: (ri + pi) % 2 == 0, path: p.clone(), req_body: 0, method: "POST", content_type: "application/grpc" });
+                // the same path under another HTTP method / with a message subtype in the content-type
+                if *wrap != Wrap::Web && (ri + pi) % 3 == 0 {
+                    let (method, content_type) = [("PUT", "application/grpc"), ("POST", "application/grpc+proto"), ("GET", "application/grpc+json")][(ri + pi) / 3 % 3];
+                    cases.push(Case { order: order.clone(), wrap: *wrap, builder: (ri + pi) % 2 == 0, path: p.clone(), req_body: 0, method, content_type });
+                }
                 // a path that names nothing is refused whatever the state of the request body
                 // (grpc-web wrapping buffers differently and is left to C16)
                 if *wrap != Wrap::Web && reference(order, p).is_none() {
                     if (ri + pi) % 5 == 0 {
-                        cases.push(Case { order: order.clone(), wrap: *wrap, builder: (ri + pi) % 2 == 1, path: p.clone(), req_body: 1 });
+                        cases.push(Case { order: order.clone(), wrap: *wrap, builder: (ri + pi) % 2 == 1, path: p.clone(), req_body: 1, method: "POST", content_type: "application/grpc" });
                     }
                     if (ri * 7 + pi) % 211 == 0 {
-                        cases.push(Case { order: order.clone(), wrap: *wrap, builder: (ri + pi) % 2 == 1, path: p.clone(), req_body: 2 });
+                        cases.push(Case { order: order.clone(), wrap: *wrap, builder: (ri + pi) % 2 == 1, path: p.clone(), req_body: 2, method: "POST", content_type: "application/grpc" });
                     }
                 }
             }
@@ -415,9 +423,9 @@ pub fn property(tier: Tier) -> Property {
     let sec = Section::new(
         "routes-in-process",
         Config::default(),
-        "cases: registrations = every non-empty subset of the generated fixture services {a.Sv, a.SvX, a.sv, Sv, x.a.Sv} (names that are prefixes / case variants / package-less variants of one another; methods M, MN, m) in given and reversed order (all orders for 3-subsets, thorough all orders of every subset), via Routes::add_service or RoutesBuilder, plain / with_interceptor / GrpcWebLayer wrapping x request paths = for every known and unknown (S, M): exact, with query, trailing slash, extra segment, one char added or removed at either end of S and M, case flips, doubled/empty segments, percent-encoded letters and dot, dot segments, nested repeats, /S, /, //, * (quick: a rotating quarter of the paths for subsets larger than 2); a fifth of the paths that name nothing are also requested with a request stream the peer never closes, and a few with a 3 MiB request message. Oracle RefRouter: handler (S, M) runs iff the path component equals /S/M with S registered; otherwise no handler runs and grpc-status is 12. Non-trivial = every case except the 3 shortest paths.",
+        "cases: registrations = every non-empty subset of the generated fixture services {a.Sv, a.SvX, a.sv, Sv, x.a.Sv} (names that are prefixes / case variants / package-less variants of one another; methods M, MN, m) in given and reversed order (all orders for 3-subsets, thorough all orders of every subset), via Routes::add_service or RoutesBuilder, plain / with_interceptor / GrpcWebLayer wrapping x request paths = for every known and unknown (S, M): exact, with query, trailing slash, extra segment, one char added or removed at either end of S and M, case flips, doubled/empty segments, percent-encoded letters and dot, dot segments, nested repeats, /S, /, //, * (quick: a rotating quarter of the paths for subsets larger than 2); a fifth of the paths that name nothing are also requested with a request stream the peer never closes, and a few with a 3 MiB request message; a third of all requests are repeated as PUT, as POST with content-type application/grpc+proto, or as GET with application/grpc+json (routing is by path alone). Oracle RefRouter: handler (S, M) runs iff the path component equals /S/M with S registered; otherwise no handler runs and grpc-status is 12. Non-trivial = every case except the 3 shortest paths.",
         cases,
-        |c: &Case| format!("order={:?} wrap={:?} builder={} path={} req_body={}", c.order.iter().map(|s| SERVICES[*s]).collect::<Vec<_>>(), c.wrap, c.builder, c.path, c.req_body),
+        |c: &Case| format!("order={:?} wrap={:?} builder={} path={} req_body={} method={} content_type={}", c.order.iter().map(|s| SERVICES[*s]).collect::<Vec<_>>(), c.wrap, c.builder, c.path, c.req_body, c.method, c.content_type),
         body,
     )
     .mins(1000, 8, 500);
